@@ -806,8 +806,93 @@ func c01R6(ic *IC, r *Report) {
 		r.Errorf("R01.6: the slice of source generators of the assignment generator was not identified")
 		return
 	}
+	// local helpers of the generator that evaluate a source: h := func(f *frame, i int) reflect.Value { ... svalue[i](f) ... }
+	evalHelpers := map[types.Object]*ast.FuncLit{}
+	ast.Inspect(fi.Decl.Body, func(m ast.Node) bool {
+		as, ok := m.(*ast.AssignStmt)
+		if !ok || len(as.Lhs) != 1 || len(as.Rhs) != 1 {
+			return true
+		}
+		lit, ok := unparen(as.Rhs[0]).(*ast.FuncLit)
+		id := identOf(as.Lhs[0])
+		if !ok || id == nil {
+			return true
+		}
+		uses := false
+		ast.Inspect(lit.Body, func(q ast.Node) bool {
+			if c, ok := q.(*ast.CallExpr); ok {
+				if ix, ok := unparen(c.Fun).(*ast.IndexExpr); ok {
+					if bid := identOf(ix.X); bid != nil && ic.Info.ObjectOf(bid) == srcSlice {
+						uses = true
+					}
+				}
+			}
+			return true
+		})
+		if uses {
+			evalHelpers[ic.Info.ObjectOf(id)] = lit
+		}
+		return true
+	})
+	// the helper returns a fresh copy on every path: each return gives a fresh value or a local
+	// whose only definition is a fresh value
+	helperFresh := func(lit *ast.FuncLit) bool {
+		okAll, nRet := true, 0
+		ast.Inspect(lit.Body, func(q ast.Node) bool {
+			if fl2, ok := q.(*ast.FuncLit); ok && fl2 != lit {
+				return false
+			}
+			rs, ok := q.(*ast.ReturnStmt)
+			if !ok {
+				return true
+			}
+			nRet++
+			if len(rs.Results) != 1 {
+				okAll = false
+				return true
+			}
+			if isFreshValue(ic, cp, rs.Results[0]) {
+				return true
+			}
+			id := identOf(rs.Results[0])
+			if id == nil {
+				okAll = false
+				return true
+			}
+			obj := ic.Info.ObjectOf(id)
+			defs, fresh := 0, 0
+			ast.Inspect(lit.Body, func(d ast.Node) bool {
+				if as, ok := d.(*ast.AssignStmt); ok && len(as.Lhs) == len(as.Rhs) {
+					for i, l := range as.Lhs {
+						if lid := identOf(l); lid != nil && ic.Info.ObjectOf(lid) == obj {
+							defs++
+							if isFreshValue(ic, cp, as.Rhs[i]) {
+								fresh++
+							}
+						}
+					}
+				}
+				return true
+			})
+			if defs == 0 || defs != fresh {
+				okAll = false
+			}
+			return true
+		})
+		return okAll && nRet > 0
+	}
 	n := 0
 	for _, fl := range (&c02ctx{ic: ic}).closuresOf(fi) {
+		if func() bool {
+			for _, lit := range evalHelpers {
+				if lit == fl {
+					return true
+				}
+			}
+			return false
+		}() {
+			continue
+		}
 		// temporaries: local slices created by make in this closure
 		temps := map[types.Object]bool{}
 		ast.Inspect(fl.Body, func(m ast.Node) bool {
@@ -861,6 +946,9 @@ func c01R6(ic *IC, r *Report) {
 					if sv != nil && ic.Info.ObjectOf(fx) == sv {
 						evaluates = true
 					}
+					if evalHelpers[ic.Info.ObjectOf(fx)] != nil {
+						evaluates = true
+					}
 				case *ast.IndexExpr:
 					if bid, ok := unparen(fx.X).(*ast.Ident); ok && ic.Info.ObjectOf(bid) == srcSlice {
 						evaluates = true
@@ -895,7 +983,15 @@ func c01R6(ic *IC, r *Report) {
 						if bv, ok := bo.(*types.Var); ok && !isData && temps[bo] {
 							if s, ok := bv.Type().Underlying().(*types.Slice); ok && types.TypeString(s.Elem(), nil) == "reflect.Value" && local {
 								// temporary: must receive a fresh value
-								if !isFreshValue(ic, cp, x.Rhs[i]) {
+								viaHelper := false
+								if hc, ok := unparen(x.Rhs[i]).(*ast.CallExpr); ok {
+									if hid := identOf(hc.Fun); hid != nil {
+										if lit := evalHelpers[ic.Info.ObjectOf(hid)]; lit != nil && helperFresh(lit) {
+											viaHelper = true
+										}
+									}
+								}
+								if !viaHelper && !isFreshValue(ic, cp, x.Rhs[i]) {
 									problems = append(problems, "the temporary "+types.ExprString(l)+" receives "+types.ExprString(x.Rhs[i])+" at "+ic.pos(x.Pos())+" (not a fresh copy: it aliases the source's storage)")
 								}
 								continue
